@@ -53,6 +53,11 @@ class GridDriver:
         with: text stays text (sources of kind "mixlist" supply str(n) for odd cells), numbers stay numbers."""
         try:
             want_text = getattr(self, "reps", {}).get(name) == "mix" and i % 2 == 1
+            if getattr(self, "reps", {}).get(name) == "f":
+                # supplied as the double n + 0.1: must come back as exactly that double
+                x = float(v)
+                n = int(round(x - 0.1))
+                return n if (x == n + 0.1 and not isinstance(v, (str, tuple, list))) else -99995
             if isinstance(v, str):
                 return int(v) if want_text and v == str(int(v)) else -99997
             if want_text:
@@ -125,15 +130,29 @@ class GridDriver:
             self._pc.x, self._pc.y, self._pc.z = c[0] + off, c[1] + off, c[2] + off
             return self._pc
 
+        def spoil(res):
+            # the caller does what callers do with a list they were given: reorders it and takes an element out
+            try:
+                res.reverse()
+                del res[:1]
+            except Exception:  # noqa: BLE001
+                pass
+
         def tup(call):
             try:
-                return [_ints(p) for p in call()]
+                res = call()
+                out = [_ints(p) for p in res]
+                spoil(res)
+                return out
             except Exception:  # noqa: BLE001
                 return SENT
 
         def ids(call):
             try:
-                return _ints(call())
+                res = call()
+                out = _ints(res)
+                spoil(res)
+                return out
             except Exception:  # noqa: BLE001
                 return [-9]
 
@@ -185,6 +204,11 @@ class GridDriver:
             vals = [7 * (i + 1) + k for i in range(n)]
             gen = np.array(vals)
             self.sources[name] = gen
+        elif kind == "farray":
+            # a float64 array whose values are not representable in a narrower float type
+            vals = [7 * (i + 1) + k for i in range(n)]
+            gen = np.array([v + 0.1 for v in vals], dtype=np.float64)
+            self.sources[name] = gen
         elif kind == "roarray":
             # a read-only view of a buffer the caller keeps (and later changes through the writable base)
             vals = [7 * (i + 1) + k for i in range(n)]
@@ -217,8 +241,8 @@ class GridDriver:
             exc = e
         if exc is None:
             self.reps = getattr(self, "reps", {})
-            self.reps[name] = "mix" if kind == "mixlist" else None
-        self.events.append({"op": "add_cell_component", "name": name, "kind": {"roarray": "array", "tconst": "constant", "mixlist": "list", "tuplist": "list"}.get(kind, kind), "k": k, "vals": vals, "dims": self.dims,
+            self.reps[name] = {"mixlist": "mix", "farray": "f"}.get(kind)
+        self.events.append({"op": "add_cell_component", "name": name, "kind": {"roarray": "array", "farray": "array", "tconst": "constant", "mixlist": "list", "tuplist": "list"}.get(kind, kind), "k": k, "vals": vals, "dims": self.dims,
                             "out": outcome(exc), "cols": self.cols()})
 
     def op_mutate(self, name):
@@ -314,7 +338,7 @@ def c11_random_program(rng, max_ext=3, length=10):
     for _ in range(length):
         r = rng.random()
         if r < 0.55:
-            prog.append(["add", rng.choice(names), rng.choice(["callable", "constant", "tconst", "list", "mixlist", "tuplist", "array", "roarray", "lookup", "lookup", "halve", "halve"]), rng.choice([0, 3, 5, -4])])
+            prog.append(["add", rng.choice(names), rng.choice(["callable", "constant", "tconst", "list", "mixlist", "tuplist", "array", "farray", "roarray", "lookup", "lookup", "halve", "halve"]), rng.choice([0, 3, 5, -4])])
         elif r < 0.7:
             prog.append(["mutate", rng.choice(names)])
         elif r < 0.9:
